@@ -321,13 +321,28 @@ def run(tier: str, seed: int) -> int:
         import traceback
 
         R.engine_errors.append(f"engine failure: {e!r} {traceback.format_exc()[-300:]}")
+    # get_terms as a fold step over the in-order traversal (order / grouping invariance of the collected terms)
+    from .c16_terms import run_terms
+
+    tr = run_terms(REPO)
+    for e in tr["errors"]:
+        R.undecided.append(e)
+    seen_t = set()
+    for ob in tr["obligations"]:
+        n_obl += 1
+        per["get_terms"] = per.get("get_terms", 0) + 1
+        if ob["ok"]:
+            n_ok += 1
+        elif (ob["clause"], ob["detail"][:80]) not in seen_t:
+            seen_t.add((ob["clause"], ob["detail"][:80]))
+            R.violation(f"obligation C16/{ob['clause']} failed on path {ob['labels'][-6:]}: {ob['detail'][:240]}", {"obligation": ob, "path": ob["labels"]}, False)
     lem = completeness_lemma()
     n_obl += 1
     if lem["ok"]:
         n_ok += 1
     else:
         R.undecided.append(f"{lem['clause']}: {lem['detail']}")
-    for name in ("get_term_ex", "make_term", "factor"):
+    for name in ("get_term_ex", "make_term", "factor", "get_terms"):
         if per.get(name, 0) == 0 and not any(u.startswith(name) for u in R.undecided):
             R.engine_errors.append(f"vacuous: no obligation for {name}")
     p = run_venv("util_tierb.py", [tier], timeout=7200)
@@ -348,14 +363,14 @@ def run(tier: str, seed: int) -> int:
     diff_summary = engine_diff.report(R, engine_diff.methods_diff(), "evaluate / clone / traversals / rotate / term functions on concrete trees")
     R.coverage = {
         "engine_differential": diff_summary,
-        "explanation": "get_term_ex / make_term / factor: deductive; has_like_terms invariance, terms_are_like reflexive+symmetric, never-raise: bounded enumeration on the real code",
+        "explanation": "get_term_ex / make_term / factor: deductive; get_terms: deductive fold step over the traversal contract (never stops, appends exactly the non-additive operands); has_like_terms invariance (the rest of it), terms_are_like reflexive+symmetric, never-raise: bounded enumeration on the real code",
         "obligations": n_obl,
         "discharged": n_ok,
         "obligations_per_function": per,
         "checker_cmd": f"/verif/bin/check C16 --tier {tier}",
         "trusted_base": ["pyvc symbolic executor", "numpy.sqrt correctly rounded (the loop bound int(sqrt(v)+1) exceeds floor(sqrt v)); stated for values below 2^52",
                          "value % i == 0 on reals means value / i is an integer", "pow(b, 1) = b"],
-        "functions_under_contract": ["util.get_term_ex", "util.make_term", "util.factor", "ExpressionParser._parse (term forms)"],
+        "functions_under_contract": ["util.get_term_ex", "util.make_term", "util.factor", "util.get_terms (closure step)", "ExpressionParser._parse (term forms)"],
         "samples": samples,
         "bounded": {k: v for k, v in bounded.items() if k != "failures"},
     }
